@@ -99,7 +99,9 @@ type fixtures struct {
 	byName  map[string]*qcert
 	// blocked-key pools
 	crlsetBlocked [2][32]byte // SPKI hashes: ca1's key, the rsa leaf/root key
-	oneBlocked    [2]struct {
+	// OneCRL subject/pubKeyHash pool: 0 = (Blocked RSA, rsa1024), 1 = (Blocked EC, p256), 2 = (Blocked RSA, rsa1024b): same
+	// subject as 0 with another key (a re-keyed certificate), 3 = (Other EC, p256): same key as 1 under another subject
+	oneBlocked [4]struct {
 		subj []byte
 		hash [32]byte
 	}
@@ -182,6 +184,8 @@ func buildFixtures() *fixtures {
 	f.crlsetBlocked[1] = f.byName["blocked-rsa"].SPKIHash
 	f.oneBlocked[0].subj, f.oneBlocked[0].hash = []byte(f.byName["blocked-rsa"].SubjDN), f.byName["blocked-rsa"].SPKIHash
 	f.oneBlocked[1].subj, f.oneBlocked[1].hash = []byte(f.byName["blocked-ec"].SubjDN), f.byName["blocked-ec"].SPKIHash
+	f.oneBlocked[2].subj, f.oneBlocked[2].hash = []byte(f.byName["blocked-rsa/other-key"].SubjDN), f.byName["blocked-rsa/other-key"].SPKIHash
+	f.oneBlocked[3].subj, f.oneBlocked[3].hash = []byte(f.byName["blocked-ec/other-subject"].SubjDN), f.byName["blocked-ec/other-subject"].SPKIHash
 	return f
 }
 
@@ -347,7 +351,7 @@ func encOneCRL(f *fixtures, m *Model) []byte {
 			Details: oneDetails{Bug: "https://bugzilla.example/1", Who: "verif", Created: "2018-05-30T12:35:03Z"}}
 	}
 	var blocked []oneRecord
-	for i := 0; i < 2; i++ {
+	for i := 0; i < len(f.oneBlocked); i++ {
 		if m.Blocked&(1<<i) != 0 {
 			r := mk(100 + i)
 			r.Subject = base64.StdEncoding.EncodeToString(f.oneBlocked[i].subj)
@@ -356,7 +360,10 @@ func encOneCRL(f *fixtures, m *Model) []byte {
 		}
 	}
 	if m.Layout == 1 {
-		recs = append(recs, blocked...)
+		// blocked records first, in reverse pool order
+		for i := len(blocked) - 1; i >= 0; i-- {
+			recs = append(recs, blocked[i])
+		}
 	}
 	for i, e := range m.flat() {
 		r := mk(i)
@@ -774,7 +781,7 @@ func evalOneCRL(x *ctxEval, m *Model, enc []byte) (out []verdict) {
 		x.h["info:onecrl record metadata (id/enabled/schema/last_modified) differs"]++
 	}
 	var wantB, gotB []string
-	for i := 0; i < 2; i++ {
+	for i := 0; i < len(f.oneBlocked); i++ {
 		if m.Blocked&(1<<i) != 0 {
 			wantB = append(wantB, hex.EncodeToString(f.oneBlocked[i].subj)+"|"+hex.EncodeToString(f.oneBlocked[i].hash[:]))
 		}
@@ -799,7 +806,7 @@ func evalOneCRL(x *ctxEval, m *Model, enc []byte) (out []verdict) {
 	for _, q := range f.queries {
 		listedNS, cat := nameCategory(f, m, q)
 		blk, subjOnly, keyOnly := false, false, false
-		for i := 0; i < 2; i++ {
+		for i := 0; i < len(f.oneBlocked); i++ {
 			if m.Blocked&(1<<i) == 0 {
 				continue
 			}
@@ -977,7 +984,7 @@ func main() {
 			c.Set("serial_lists_per_issuer_sequences", len(sequences))
 			extra = " PLUS (thorough) the same with every ORDER of each serial list (sequences without repetition of length 1..3) x blocked keys {none, both} x layouts {both for OneCRL/SST, slot order for CRLSet}, models already covered by the first part skipped;"
 		}
-		c.Rule("ALL models: 3 issuer slots (ca1 'CN=Rev CA 1', ca2 'CN=Rev CA 2,O=Org', ca3 'CN=Rev CA 1,O=Org'), each absent or carrying a serial list = subset of size 1..3 of {1,255,256,2^64,128} in alphabet order (CRLSet additionally: present with 0 serials) x every subset of the format's 2 blocked keys (none for SST) x 2 layouts (slot order grouped / reversed order interleaved, blocked records last/first, SST property elements none|SHA-1|empty+header-lookalike);" + extra + " each model encoded as CRLSet, OneCRL JSON and SST by the harness' own encoders, parsed, compared with the model, then queried with EVERY pool certificate: 6 CAs (3 listed-capable, unrelated, same-name-other-key, same-key-other-name) x serials {alphabet, 77} leaves, the CA certificates, 2 same-issuer+serial twins, RSA/ECDSA blocked-key certificates with same-subject-other-key and same-key-other-subject variants and a self-signed one; a model is non-trivial/distinct by (format, issuer lists, blocked mask, layout)")
+		c.Rule("ALL models: 3 issuer slots (ca1 'CN=Rev CA 1', ca2 'CN=Rev CA 2,O=Org', ca3 'CN=Rev CA 1,O=Org'), each absent or carrying a serial list = subset of size 1..3 of {1,255,256,2^64,128} in alphabet order (CRLSet additionally: present with 0 serials) x every subset of the format's blocked keys (CRLSet: 2 SPKI hashes; OneCRL: 4 subject/key-hash records of which two share a subject and two share a key; none for SST) x 2 layouts (slot order grouped / reversed order interleaved, blocked records last/first, SST property elements none|SHA-1|empty+header-lookalike);" + extra + " each model encoded as CRLSet, OneCRL JSON and SST by the harness' own encoders, parsed, compared with the model, then queried with EVERY pool certificate: 6 CAs (3 listed-capable, unrelated, same-name-other-key, same-key-other-name) x serials {alphabet, 77} leaves, the CA certificates, 2 same-issuer+serial twins, RSA/ECDSA blocked-key certificates with same-subject-other-key and same-key-other-subject variants and a self-signed one; a model is non-trivial/distinct by (format, issuer lists, blocked mask, layout)")
 		c.Assume(
 			"query certificate features (raw issuer/subject names, serial, SPKI) are read with crypto/x509 from the DER; expected membership is computed from the model only",
 			"CRLSet blocked SPKIs are base64(SHA-256(SPKI)) header strings as in Chrome's published sets (testdata/crl-set-6375); Check is called with the hex SHA-256 of the issuer's SPKI (the key form of IssuerLists, as verifier.go does)",
@@ -1038,6 +1045,10 @@ func main() {
 			allMasks, bothMasks := []int{0, 1, 2, 3}, []int{0, 3}
 			if format == "sst" {
 				allMasks, bothMasks = []int{0}, []int{0}
+			}
+			if format == "onecrl" {
+				// every subset of the 4 subject/key-hash records (two of them share a subject, two share a key)
+				allMasks, bothMasks = []int{0, 1, 2, 3, 4, 5, 6, 7, 8, 9, 10, 11, 12, 13, 14, 15}, []int{0, 3, 5, 10, 15}
 			}
 			parts := []part{{"subsets", subsets, allMasks, []int{0, 1}, false}}
 			if !c.Quick() {
